@@ -27,6 +27,10 @@ Definition sh_dec : forall a b : serverHelloMsg, {a = b} + {a <> b}. Proof. repe
 Definition SH_dec : forall a b : PubServerHelloMsg, {a = b} + {a <> b}. Proof. repeat decide equality. Defined.
 Definition cr_dec : forall a b : certificateRequestMsgTLS13, {a = b} + {a <> b}. Proof. repeat decide equality. Defined.
 Definition CR_dec : forall a b : CertificateRequestMsgTLS13, {a = b} + {a <> b}. Proof. repeat decide equality. Defined.
+Definition c3_dec : forall a b : cipherSuiteTLS13, {a = b} + {a <> b}. Proof. repeat decide equality. Defined.
+Definition C3_dec : forall a b : PubCipherSuiteTLS13, {a = b} + {a <> b}. Proof. repeat decide equality. Defined.
+Definition cs_dec : forall a b : cipherSuite, {a = b} + {a <> b}. Proof. repeat decide equality. Defined.
+Definition CS_dec : forall a b : PubCipherSuite, {a = b} + {a <> b}. Proof. repeat decide equality. Defined.
 Definition eqb_of {A} (dec : forall a b : A, {a = b} + {a <> b}) (a b : A) : bool := if dec a b then true else false.
 Definition opt_eqb {A} (dec : forall a b : A, {a = b} + {a <> b}) (a b : option A) : bool :=
   match a, b with Some x, Some y => eqb_of dec x y | None, None => true | _, _ => false end.
@@ -55,6 +59,12 @@ Inductive case :=
 | CvCRpub (p : option certificateRequestMsgTLS13) (c : option CertificateRequestMsgTLS13)   (* Raw as observed *)
 | CvKSpriv (s : slice KeyShare) (o : slice keyShare) | CvKSpub (s : slice keyShare) (o : slice KeyShare)
 | CvPIpriv (s : slice PskIdentity) (o : slice pskIdentity) | CvPIpub (s : slice pskIdentity) (o : slice PskIdentity)
+(* suite views; func values are identities. The ids include implemented suites with fields that differ from the built-in table *)
+| CvC3priv (c : option PubCipherSuiteTLS13) (p : option cipherSuiteTLS13) | CvC3pub (p : option cipherSuiteTLS13) (c : option PubCipherSuiteTLS13)
+| CvCSpriv (c : option PubCipherSuite) (p : option cipherSuite) | CvCSpub (p : option cipherSuite) (c : PubCipherSuite)
+(* second conversion: [before] was converted (which stores the private struct in the view), the view was then edited to
+   [after] (cache pointer kept), and converted again to p *)
+| CvCHre (before after : PubClientHelloMsg) (p : clientHelloMsg)
 | CvTKpriv (s : slice TicketKey) (o : slice ticketKey) | CvTKpub (s : slice ticketKey) (o : slice TicketKey)
 (* codec: UnmarshalClientHello on bytes (result with the cache pointer omitted), the private extension list,
    marshalMsg on a public view with Raw ignored, Marshal on a public view *)
@@ -99,6 +109,17 @@ Definition check (c : case) : bool :=
   | CvKSpub s o => slice_eqb KeyShare_dec (keyShares_ToPublic s) o
   | CvPIpriv s o => slice_eqb pskIdentity_dec (PskIdentities_ToPrivate s) o
   | CvPIpub s o => slice_eqb PskIdentity_dec (pskIdentities_ToPublic s) o
+  | CvC3priv c p => opt_eqb c3_dec (C3_toPrivate c) p
+  | CvC3pub p c => opt_eqb C3_dec (c3_toPublic p) c
+  | CvCSpriv c p => opt_eqb cs_dec (CS_getPrivatePtr c) p
+  | CvCSpub p c => eqb_of CS_dec (cs_getPublicObj p) c
+  | CvCHre before after p =>
+      match CH_getPrivatePtr (Some before) with
+      | Some (_, before') =>
+          match CH_getPrivatePtr (Some (CH_set_cached after (CH_cachedPrivateHello before'))) with
+          | Some (p', _) => eqb_of ch_dec p' p
+          | None => false end
+      | None => false end
   | CvTKpriv s o => slice_eqb ticketKey_dec (TicketKeys_ToPrivate s) o
   | CvTKpub s o => slice_eqb TicketKey_dec (ticketKeys_ToPublic s) o
   | CParse b o exts =>
